@@ -1,4 +1,5 @@
 import DuneVerif.Proofs.C04H
+import DuneVerif.Proofs.C04L
 /-!
 C04 — RemoteIndices equals the pairwise intersection of the published index sets.
 
@@ -696,5 +697,79 @@ example : ((F.World.run exWorld (exEvs ++ [.rebuild false (fun _ => []), .rebuil
     = some [(1, 1), (2, 3)] ∧
     (F.World.run exWorld [.rebuild false (fun _ => []), .resize 1 0 [], .rebuild false (fun _ => [])]).isNone = true := by
   decide
+
+/-! ### how the index pairs come into being, and where they lie (round four) -/
+
+/-- **localindex_variants_agree**: every way of making a local index that the correspondence uses — the three
+    constructors of `ParallelLocalIndex` (member-initialiser lists and delegations *regenerated from plocalindex.hh*,
+    `DV.C04.GenL`), the default argument `isPublic=true`, `operator=(size_t)`, `setAttribute`, `IndexPair(global)` +
+    assignment, `setLocal` — yields the pair `(g, l, a, pub)` it was asked for, as seen through the getters
+    `local()`, `attribute()`, `isPublic()`, and a `VALID` one.  So "arbitrary attributes and public flags" of the
+    property do not depend on the overload through which an index is created.  (A constructor that drops an argument
+    changes a generated definition and this proof fails.) -/
+theorem localindex_variants_agree (how : Nat) (g : Int) (l a : Nat) (pub : Bool) :
+    L.mkPair how g l a pub = { g := g, l := l, a := a, pub := pub } ∧ (L.build how l a pub).valid = true :=
+  ⟨L.mkPair_eq how g l a pub, L.build_valid how l a pub⟩
+
+example : L.mkPair 1 7 5 2 false = ⟨7, 5, 2, false⟩ ∧ L.mkPair 2 7 5 2 true = ⟨7, 5, 2, true⟩ ∧
+    L.mkPair 3 (-1) 9 0 false = ⟨-1, 9, 0, false⟩ ∧ L.mkPair 4 0 0 3 true = ⟨0, 0, 3, true⟩ := by decide
+
+/-- **gen_pair_facts**: what the variants rest on in indexset.hh, read from the source: `IndexPair(global, local)`
+    stores both, `IndexPair(global)` default-constructs the local index, `setLocal` assigns, the two `add` overloads
+    append exactly these pairs unconditionally — none of the facts is contradicted by the source. -/
+theorem gen_pair_facts : ∀ f ∈ L.pairFacts, f ≠ some false := by decide
+
+example : L.pairFacts.length = 5 := rfl
+
+/-- **chunked_storage**: `ArrayList<T,N>` keeps `l` in chunks that are never empty, never longer than `N` (`N = 0`
+    counts as 1), and whose concatenation — what the iterator walks through — is `l`, for every `N` and every `l`. -/
+theorem chunked_storage (N : Nat) (l : List α) :
+    (L.chunked N l).flatten = l ∧ ∀ c ∈ L.chunked N l, c ≠ [] ∧ c.length ≤ max N 1 :=
+  ⟨L.chunked_go_flatten N l.length l (Nat.le_refl _), L.chunked_go_sizes N l.length l⟩
+
+example : L.chunked 2 [1, 2, 3, 4, 5] = [[1, 2], [3, 4], [5]] ∧ L.chunked 100 [1, 2, 3] = [[1, 2, 3]] ∧
+    L.chunked 1 [1, 2] = [[1], [2]] := by decide
+
+/-- **pack_chunked**: `packEntries`' loop over the chunked storage — every published pair packed by one `MPI_Pack`
+    call of `Gen.packCount n` pairs (*the count argument read from the source*) starting at the pair's address —
+    never reads past the end of a chunk and produces exactly the published pairs in set order (the entries of the
+    model's message, `F.published`), for every chunk size `N`, every index set (any size: fewer than `N`, exactly `N`,
+    `N+1`, many chunks), both values of `ignorePublic`, every entry count `n`. -/
+theorem pack_chunked (N : Nat) (n : Int) (ign : Bool) (l : List Pair) :
+    L.packWalk (fun p => Gen.publishes ign p.pub) (Gen.packCount n).toNat (L.chunked N l) = some (F.published ign l) := by
+  have h1 : (Gen.packCount n).toNat = 1 := by simp [Gen.packCount]
+  rw [h1, L.packWalk_one, (chunked_storage N l).1]
+  rfl
+
+/-- three pairs in chunks of two, the middle one not public: both flags; and what a single call for all `n = 3` pairs
+    starting at the first pair would do: it leaves the first chunk (`none`), while for `N ≥ 3` nothing is wrong —
+    the reason why sets that fit into one chunk cannot show such a change -/
+example : let l : List Pair := [⟨1, 0, 0, true⟩, ⟨2, 1, 1, false⟩, ⟨3, 2, 0, true⟩]
+    L.packWalk (fun p => Gen.publishes false p.pub) 1 (L.chunked 2 l) = some [⟨1, 0, 0, true⟩, ⟨3, 2, 0, true⟩] ∧
+    L.packWalk (fun p => Gen.publishes true p.pub) 1 (L.chunked 2 l) = some l ∧
+    L.packAt ((L.chunked 2 l).headD []) 0 3 = none ∧
+    L.packAt ((L.chunked 100 l).headD []) 0 3 = some l := by decide
+
+/-- the receiving side takes one pair per `MPI_Unpack` call as well (count read from all five calls of the two
+    `unpackIndices`): the cursor model `F.unpackGo`, which advances by one entry per call, is the code's -/
+theorem unpack_one_per_call (remoteEntries : Int) : Gen.unpackCount remoteEntries = 1 := rfl
+
+example : Gen.unpackCount 5 = 1 := rfl
+
+/-- **announced_count_is_packed_count**: the entry count a rank announces for an index set
+    (`Gen.publishCount`: `size()` when publicity is ignored, otherwise `noPublic()`, which counts the pairs passing
+    `Gen.countedPublic` — both read from the source) is the number of pairs `packEntries` packs (`F.published`), for
+    every index set and both flag values; so the `assert(i==n)` of `packEntries` holds and the receiver's loop bound is
+    the number of entries in the buffer. -/
+theorem announced_count_is_packed_count (ign : Bool) (l : List Pair) :
+    Gen.publishCount ign l.length ((l.filter fun p => Gen.countedPublic p.pub).length) = (F.published ign l).length := by
+  cases ign
+  · simp [Gen.publishCount, Gen.countedPublic, F.published, Gen.publishes]
+  · have h : l.filter (fun p => Gen.publishes true p.pub) = l := by
+      simp [Gen.publishes]
+    simp [Gen.publishCount, F.published, h]
+
+example : Gen.publishCount false 3 (([⟨1, 0, 0, true⟩, ⟨2, 1, 1, false⟩, ⟨3, 2, 0, true⟩] : List Pair).filter
+    fun p => Gen.countedPublic p.pub).length = 2 := by decide
 
 end DV.C04
